@@ -83,7 +83,8 @@ pub fn gen(seed: u64, _idx: u64, tier: Tier) -> Scenario {
                 sc.steps.push(Step::Send { c, a: vec![b(if r.chance(7, 8) { "EXEC" } else { "DISCARD" })], split: vec![] });
             }
             2 => {
-                let inner = cmd(&mut r, &mut uniq, true);
+                // (now and then a command whose outcome is random or taken from the clock: the log has to replay to the same outcome)
+                let inner = if r.chance(1, 30) { uniq += 1; if r.chance(1, 2) { vec![b("SPOP"), b(*r.pick(&["s1", "s2"]))] } else { vec![b("XADD"), b("x1"), b("*"), b("f"), b(&format!("v{}", uniq))] } } else { cmd(&mut r, &mut uniq, true) };
                 // (a script whose write took effect has to be in the log whatever it replies afterwards: an error reply, an abort)
                 let mut a = if r.chance(1, 3) { vec![b("EVALSHA"), b("@SHA@"), b("0")] } else { vec![b("EVAL"), b(*r.pick(&[WRAP, WRAP, WRAP, "redis.call(unpack(ARGV)); return redis.error_reply('after the write')", "redis.call(unpack(ARGV)); return redis.call('NOSUCHCOMMAND')", "redis.call(unpack(ARGV)); error('after the write')", "redis.call(unpack(ARGV)); return redis.pcall('INCR')"])), b("0")] };
                 a.extend(inner);
@@ -208,7 +209,12 @@ fn checkpoint(h: &mut H, history: &[Sent], final_one: bool) {
         if let Some((key, detail)) = diff {
             // attribute the difference to the last command of the live history that named this key
             let last = history.iter().rev().find(|s| s.args.iter().skip(1).any(|a| *a == key) || matches!(upper(&s.args[0]).as_str(), "FLUSHDB" | "FLUSHALL"));
-            let (verb, pth) = match last { Some(s) => { let v = upper(&s.args[0]); (if v == "EVAL" || v == "EVALSHA" { format!("{}:{}", v, s.args.get(3).map(|x| upper(x)).unwrap_or_default()) } else { v }, s.path) } None => ("?".to_string(), "-") };
+            // ... unless a script with a random / clock-dependent outcome wrote to this key earlier: the log holds the script
+            // itself, so everything after it on this key differs (a recorded finding) - that script is then the cause named
+            let random_script = history.iter().find(|s| matches!(upper(&s.args[0]).as_str(), "EVAL" | "EVALSHA") && s.args.get(4) == Some(&key)
+                && (s.args.get(3).map(|x| upper(x)).as_deref() == Some("SPOP") || (s.args.get(3).map(|x| upper(x)).as_deref() == Some("XADD") && s.args.get(5).map(|x| x.as_slice()) == Some(&b"*"[..]))));
+            let last = random_script.or(last);
+            let (verb, pth) = match last { Some(s) => { let v = upper(&s.args[0]); (if v == "EVAL" || v == "EVALSHA" { format!("{}:{}{}", v, s.args.get(3).map(|x| upper(x)).unwrap_or_default(), if s.args.get(3).map(|x| upper(x)).as_deref() == Some("XADD") && s.args.get(5).map(|x| x.as_slice()) == Some(&b"*"[..]) { "*" } else { "" }) } else { v }, s.path) } None => ("?".to_string(), "-") };
             let dbclass = if db == 0 { "db0" } else { "other-db" };
             h.violate(format!("C11/replay-differs/{}/{}/{}", verb, pth, dbclass), format!("{} (last command naming the key: {} via {}; AOF has {} commands, {} refused on replay){}", detail, last.map(|s| show_cmd(&s.args)).unwrap_or_default(), pth, cmds.len(), failed_replies, if final_one { "" } else { " [intermediate checkpoint]" }));
             return;
